@@ -363,3 +363,135 @@ Proof.
   destruct (match use_purity purity with Some _ => _ | None => _ end); [|discriminate].
   intro H; injection H as <-. reflexivity.
 Qed.
+
+(* ---------------------------------------------------------------- inconsistently named tables *)
+
+(* Which sex-chromosome names the purity-adjusted path recognises is decided by the FIRST row
+   alone: "chrX"/"chrY" if it starts with "chr", "X"/"Y" otherwise. *)
+Definition first_is_chr (first : string) : bool := str_prefix "chr" first.
+Definition seen_x (first : string) : string := if first_is_chr first then "chrX"%string else "X"%string.
+Definition seen_y (first : string) : string := if first_is_chr first then "chrY"%string else "Y"%string.
+Definition unseen_x (first : string) : string := if first_is_chr first then "X"%string else "chrX"%string.
+Definition unseen_y (first : string) : string := if first_is_chr first then "Y"%string else "chrY"%string.
+
+Lemma labels_by_first first : x_label first = seen_x first /\ y_label first = seen_y first.
+Proof.
+  unfold y_label, x_label, seen_x, seen_y, first_is_chr. change chr_prefix with "chr"%string.
+  destruct (str_prefix "chr" first); split; reflexivity.
+Qed.
+
+Lemma row_class_auto build first chrom lo hi :
+  chrom <> seen_x first -> chrom <> seen_y first -> row_class build first chrom lo hi = Auto.
+Proof.
+  intros Hx Hy. unfold row_class. destruct (labels_by_first first) as [-> ->].
+  apply String.eqb_neq in Hx, Hy. rewrite Hx, Hy. reflexivity.
+Qed.
+
+Lemma unseen_neq first :
+  unseen_x first <> seen_x first /\ unseen_x first <> seen_y first /\
+  unseen_y first <> seen_x first /\ unseen_y first <> seen_y first.
+Proof.
+  unfold unseen_x, unseen_y, seen_x, seen_y. destruct (first_is_chr first); repeat split; discriminate.
+Qed.
+
+(* What do_call does on a table that mixes the two naming styles:
+   (1) a row is treated as X / Y / PAR only if its name is the style of the first row;
+   (2) X / Y rows named in the other style are autosomes for the purity-adjusted path
+       ((r, x) = (ploidy, ploidy), no sex-chromosome shift of the rewritten log2), i.e. they
+       are called exactly like an autosomal row with the same ratio;
+   (3) the no-purity path (lower-cased membership test) recognises both styles whatever the
+       first row is, so the two paths disagree on such rows. *)
+Theorem mixed_naming build first :
+  (forall chrom lo hi, row_class build first chrom lo hi <> Auto ->
+                       chrom = seen_x first \/ chrom = seen_y first) /\
+  (forall lo hi, row_class build first (unseen_x first) lo hi = Auto /\
+                 row_class build first (unseen_y first) lo hi = Auto) /\
+  (forall k purity p hapx female lo hi e, use_purity purity = Some p ->
+     call_row k purity hapx female build first (unseen_x first, lo, hi, e)
+       = call_row_purity k p hapx female Auto e /\
+     call_row k purity hapx female build first (unseen_y first, lo, hi, e)
+       = call_row_purity k p hapx female Auto e /\
+     row_copies k purity hapx female build first (unseen_x first, lo, hi, e) = (k, k) /\
+     row_copies k purity hapx female build first (unseen_y first, lo, hi, e) = (k, k)) /\
+  (forall k hapx, ref_pure "X" k hapx = ref_pure "chrX" k hapx /\
+                  ref_pure "Y" k hapx = ref_pure "chrY" k hapx /\
+                  ref_pure (unseen_x first) k hapx = ref_pure (seen_x first) k hapx /\
+                  ref_pure (unseen_y first) k hapx = ref_pure (seen_y first) k hapx).
+Proof.
+  destruct (unseen_neq first) as [N1 [N2 [N3 N4]]].
+  split; [|split; [|split]].
+  - intros chrom lo hi H.
+    destruct (string_dec chrom (seen_x first)) as [E|Nx]; [left; exact E|].
+    destruct (string_dec chrom (seen_y first)) as [E|Ny]; [right; exact E|].
+    exfalso. apply H. apply row_class_auto; assumption.
+  - intros lo hi. split; apply row_class_auto; assumption.
+  - intros k purity p hapx female lo hi e U. unfold call_row, row_copies. rewrite U.
+    rewrite (row_class_auto build first (unseen_x first) lo hi N1 N2).
+    rewrite (row_class_auto build first (unseen_y first) lo hi N3 N4).
+    repeat split; reflexivity.
+  - intros k hapx. unfold unseen_x, unseen_y, seen_x, seen_y.
+    destruct (first_is_chr first), hapx; repeat split; reflexivity.
+Qed.
+
+(* a first row in the other style exists for every table style: the hypothesis of (2) is met,
+   e.g. first row "chr1" and a row named "X" *)
+Lemma mixed_naming_example :
+  unseen_x "chr1" = "X"%string /\ unseen_x "1" = "chrX"%string /\
+  row_class None "chr1" "X" 0 100 = Auto /\ row_class None "1" "chrX" 0 100 = Auto /\
+  row_class None "chr1" "chrX" 0 100 = ChrX.
+Proof. repeat split; reflexivity. Qed.
+
+(* ---------------------------------------------------------------- PAR boundaries *)
+
+Lemma within2 a1 z1 a2 z2 lo hi :
+  within [(a1, z1); (a2, z2)] lo hi = true <-> (a1 <= lo /\ hi <= z1)%Z \/ (a2 <= lo /\ hi <= z2)%Z.
+Proof.
+  unfold within. cbn [existsb]. rewrite !orb_true_iff, !andb_true_iff, !Z.leb_le.
+  split; [intros [H | [H | H]]; [left; exact H | right; exact H | discriminate]
+         | intros [H | H]; [left; exact H | right; left; exact H]].
+Qed.
+
+(* in_par is inclusive at both ends of both regions, for both builds (any letter case), on X
+   and on Y: a bin is PAR iff it lies within [start, end] of PAR1 or of PAR2, as coded
+   (start >= par_start) & (end <= par_end) *)
+Theorem par_inclusive b lo hi :
+  (lower_str b = "grch37"%string ->
+     (in_par b par_keys_x lo hi = true <->
+        (60000 <= lo /\ hi <= 2699520)%Z \/ (154931043 <= lo /\ hi <= 155260560)%Z) /\
+     (in_par b par_keys_y lo hi = true <->
+        (10000 <= lo /\ hi <= 2649520)%Z \/ (59034049 <= lo /\ hi <= 59363566)%Z)) /\
+  (lower_str b = "grch38"%string ->
+     (in_par b par_keys_x lo hi = true <->
+        (10000 <= lo /\ hi <= 2781479)%Z \/ (155701382 <= lo /\ hi <= 156030895)%Z) /\
+     (in_par b par_keys_y lo hi = true <->
+        (10000 <= lo /\ hi <= 2781479)%Z \/ (56887902 <= lo /\ hi <= 57217415)%Z)).
+Proof.
+  split; intro E.
+  - assert (S : supported_lower (lower_str b)) by (left; exact E).
+    rewrite (in_par_x b lo hi S), (in_par_y b lo hi S), E. split; apply within2.
+  - assert (S : supported_lower (lower_str b)) by (right; exact E).
+    rewrite (in_par_x b lo hi S), (in_par_y b lo hi S), E. split; apply within2.
+Qed.
+
+(* the eight regions, typed from params.PSEUDO_AUTSOMAL_REGIONS / the property's builds *)
+Definition par_regions : list (string * bool * Z * Z) :=
+  [("grch37", false, 60000, 2699520); ("grch37", false, 154931043, 155260560);
+   ("grch37", true, 10000, 2649520); ("grch37", true, 59034049, 59363566);
+   ("grch38", false, 10000, 2781479); ("grch38", false, 155701382, 156030895);
+   ("grch38", true, 10000, 2781479); ("grch38", true, 56887902, 57217415)]%string%Z.
+
+Definition par_keys (onY : bool) : list string := if onY then par_keys_y else par_keys_x.
+
+(* bins exactly on a region, one base off at either end, just inside, and straddling either end *)
+Definition par_end_cases (r : string * bool * Z * Z) : Prop :=
+  let '(b, onY, a, z) := r in
+  let keys := par_keys onY in
+  in_par b keys a z = true /\                                   (* exactly the region: inclusive at both ends *)
+  in_par b keys (a - 1) z = false /\ in_par b keys a (z + 1) = false /\          (* one base off *)
+  in_par b keys (a + 1) (z - 1) = true /\                                        (* one base inside *)
+  in_par b keys a (a + 1) = true /\ in_par b keys (z - 1) z = true /\            (* touching an end from inside *)
+  in_par b keys (a - 10) (a + 10) = false /\ in_par b keys (z - 10) (z + 10) = false /\  (* straddling an end *)
+  in_par b keys (z + 1) (z + 100) = false /\ in_par b keys (a - 100) (a - 1) = false.    (* outside *)
+
+Theorem par_ends : Forall par_end_cases par_regions.
+Proof. repeat constructor; vm_compute; reflexivity. Qed.
